@@ -86,6 +86,29 @@ def random_spectra(run, tier, nprng):
                                 run.violation({"kind": "circshift_modified_input", "D": D, "shift": shift, "copy": copy, "dtype": str(np.dtype(dt))})
 
 
+def real_valued_segments(run, tier, nprng):
+    """Spectrum segments of a real dtype (the triangular and Gabor banks produce them): the shift theorem is the same."""
+    for D in (4, 9, 16, 64):
+        vals = np.round(nprng.randn(D) * 5)
+        for start, ln in ((0, D), (1, D - 1), (D // 2, D - D // 2)):
+            full = np.zeros(D, complex)
+            full[start:start + ln] = vals[start:start + ln]
+            for shift in (-3, 1, 2, D + 1):
+                want = np.fft.fft(np.roll(np.fft.ifft(full), shift))[start:start + ln]
+                for dt in (np.float64, np.float32, np.int64):
+                    for copy in (True, False):
+                        arg = vals[start:start + ln].astype(dt)
+                        keep = arg.copy()
+                        got = util.circshift_fourier(arg, shift, start_idx=start, dft_size=D, copy=copy)
+                        run.evaluations += 1
+                        tol = 1e-9 if dt != np.float32 else 1e-3 * max(1.0, np.abs(want).max())
+                        if got.shape != want.shape or not np.allclose(got, want, rtol=0, atol=tol):
+                            run.violation({"kind": "circshift_random_spectrum_differs", "D": D, "shift": shift, "start": start, "len": ln,
+                                           "dft_size": D, "copy": copy, "dtype": str(np.dtype(dt)), "what": "real-valued segment"})
+                        elif copy and not np.array_equal(arg, keep):
+                            run.violation({"kind": "circshift_modified_input", "D": D, "shift": shift, "copy": copy, "dtype": str(np.dtype(dt))})
+
+
 def wrapped_segments(run, tier, nprng):
     """A spectrum segment may wrap past the end of the DFT (bin indices are taken modulo the DFT size).  For whole-sample
     shifts the result is the roll; for ANY shift - fractional ones too - the answer may not depend on how the same
@@ -251,6 +274,7 @@ def run(tier, seed):
     run.traces += len(table["cases"])
     random_spectra(run, tier, nprng)
     wrapped_segments(run, tier, nprng)
+    real_valued_segments(run, tier, nprng)
     windows(run, tier, table)
     gamma_attributes(run)
     returned_arrays_are_the_callers(run)
